@@ -403,7 +403,15 @@ func vQueue2Case(r *rand.Rand, out *vOut, kind string) {
 			ref.items = ref.items[pos:]
 		}
 	}
-	for _, ph := range vq2Profiles(kind, r) {
+	for pi, ph := range vq2Profiles(kind, r) {
+		if kind == "wait" && pi > 0 && !panicked && r.Intn(3) == 0 {
+			// switch to priority order at a phase boundary (often out of the ring representation)
+			do("repush", func() string { in.wait.RePushPriorityRingQueue(); return "ok/" + in.state() })
+			if !panicked && !ref.prio {
+				ref.sortPrio()
+			}
+			checkLen("after RePushPriorityRingQueue")
+		}
 		for k := 0; k < ph[0] && !panicked && size < 50000; k++ {
 			w := r.Intn(ph[1] + ph[2] + ph[3] + ph[4])
 			switch {
